@@ -14,24 +14,31 @@ import (
 	"net"
 	"strings"
 	"sync"
+	"sync/atomic"
 	"time"
 
 	"github.com/gocql/gocql"
-	"github.com/golang/snappy"
 	"verif/engine/refcql/frame"
 	"verif/engine/report"
 )
 
 type lnode struct {
-	conn     net.Conn
-	version  int
-	compress bool
+	conn    net.Conn
+	version int
 
 	mu       sync.Mutex
+	comp     string       // compression negotiated by STARTUP: "", "snappy", "lz4" (every later reply is compressed)
 	entry    *frame.Entry // what the next PREPARE / EXECUTE / QUERY is answered with
 	prepID   []byte
 	skipSeen int // EXECUTEs that carried the skip_metadata flag
 	malformd []string
+
+	// sequences (seq.go): statements with a fixed answer, and the script of the frames to send
+	stmts   map[string]*seqStmt // by statement text
+	byID    map[string]*seqStmt // by prepared id
+	batch   *seqBatch
+	pending []seqPending
+	onFlush func([]seqHead)
 }
 
 func (n *lnode) set(e *frame.Entry, id []byte) {
@@ -65,16 +72,29 @@ func (n *lnode) serve() {
 			return
 		}
 		if h.Flags&frame.FlagCompression != 0 {
-			if body, err = snappy.Decode(nil, body); err != nil {
+			n.mu.Lock()
+			comp := n.comp
+			n.mu.Unlock()
+			if body, err = decompressBody(comp, body); err != nil {
 				n.mu.Lock()
-				n.malformd = append(n.malformd, "snappy: "+err.Error())
+				n.malformd = append(n.malformd, comp+": "+err.Error())
 				n.mu.Unlock()
 				return
 			}
 		}
 		req, err := frame.DecodeRequestBody(h, body)
 		var msg interface{}
-		compressReply := n.compress
+		n.mu.Lock()
+		compressReply := n.comp // a STARTUP is answered in the form negotiated before it
+		n.mu.Unlock()
+		if err == nil && n.scripted(h, req) {
+			// part of a sequence: answered (together with the other frames of the batch) once the
+			// batch has all its requests
+			if !n.flushBatch() {
+				return
+			}
+			continue
+		}
 		if err != nil {
 			n.mu.Lock()
 			n.malformd = append(n.malformd, err.Error())
@@ -94,23 +114,37 @@ func (n *lnode) serve() {
 		} else {
 			resp = &frame.Response{Version: n.version, Stream: h.Stream, Msg: msg}
 		}
-		enc, err := frame.Encode(resp)
-		if err != nil {
-			n.mu.Lock()
-			n.malformd = append(n.malformd, "node cannot encode its reply: "+err.Error())
-			n.mu.Unlock()
-			return
-		}
-		out := enc.Bytes()
-		if compressReply {
-			ch := enc.Header
-			ch.Flags |= frame.FlagCompression
-			out = frame.Assemble(ch, snappy.Encode(nil, enc.Body))
-		}
-		if _, err := n.conn.Write(out); err != nil {
+		if !n.send(resp, compressReply) {
 			return
 		}
 	}
+}
+
+// send encodes resp with the reference codec, compresses the body if the connection negotiated
+// a compression, and writes the frame.
+func (n *lnode) send(resp *frame.Response, compression string) bool {
+	enc, err := frame.Encode(resp)
+	if err != nil {
+		n.mu.Lock()
+		n.malformd = append(n.malformd, "node cannot encode its reply: "+err.Error())
+		n.mu.Unlock()
+		return false
+	}
+	out := enc.Bytes()
+	if compression != "" {
+		ch := enc.Header
+		ch.Flags |= frame.FlagCompression
+		cb, err := compressBody(compression, enc.Body)
+		if err != nil {
+			n.mu.Lock()
+			n.malformd = append(n.malformd, err.Error())
+			n.mu.Unlock()
+			return false
+		}
+		out = frame.Assemble(ch, cb)
+	}
+	_, err = n.conn.Write(out)
+	return err == nil
 }
 
 func (n *lnode) answer(req *frame.Request) interface{} {
@@ -119,19 +153,23 @@ func (n *lnode) answer(req *frame.Request) interface{} {
 	v := n.version
 	switch m := req.Msg.(type) {
 	case *frame.Options:
-		return frame.Supported{Options: []frame.KL{{Key: "COMPRESSION", Values: []string{"snappy"}}, {Key: "CQL_VERSION", Values: []string{"3.0.0"}}}}
+		return nodeSupported
 	case *frame.Startup:
 		for _, kv := range m.Options {
-			if kv.Key == "COMPRESSION" && kv.Value == "snappy" {
-				n.compress = true
+			if kv.Key == "COMPRESSION" && (kv.Value == "snappy" || kv.Value == "lz4") {
+				n.comp = kv.Value
 			}
 		}
 		return frame.Ready{}
 	case *frame.Register:
 		return frame.Ready{}
 	case *frame.Prepare:
-		p := frame.ResultPrepared{ID: n.prepID}
-		if rows, ok := n.entry.Resp.Msg.(frame.ResultRows); ok && v >= 2 {
+		entry, id := n.entry, n.prepID
+		if st := n.stmts[m.Statement]; st != nil {
+			entry, id = st.e, st.id
+		}
+		p := frame.ResultPrepared{ID: id}
+		if rows, ok := entry.Resp.Msg.(frame.ResultRows); ok && v >= 2 {
 			meta := rows.Meta
 			meta.HasMorePages, meta.PagingState = false, nil
 			p.Result = meta
@@ -140,25 +178,30 @@ func (n *lnode) answer(req *frame.Request) interface{} {
 		}
 		return p
 	case *frame.Execute:
-		if !bytes.Equal(m.ID, n.prepID) {
+		entry := n.entry
+		if st := n.byID[string(m.ID)]; st != nil {
+			entry = st.e
+		} else if !bytes.Equal(m.ID, n.prepID) {
 			return frame.Error{Code: frame.ErrUnprepared, Message: "unknown id", StatementID: m.ID}
 		}
-		if rows, ok := n.entry.Resp.Msg.(frame.ResultRows); ok && m.Params.SkipMetadata {
+		if rows, ok := entry.Resp.Msg.(frame.ResultRows); ok && m.Params.SkipMetadata {
 			n.skipSeen++
 			// what a node does when asked to skip the metadata: same flags plus no_metadata, no column specs
-			cp := *n.entry.Resp
+			cp := *entry.Resp
 			rows.Meta.NoMetadata = true
 			rows.Meta.Columns = nil
 			rows.Meta.GlobalKeyspace, rows.Meta.GlobalTable = "", ""
 			cp.Msg = rows
 			return &cp
 		}
-		return n.entry.Resp
+		return entry.Resp
 	case *frame.Query:
 		return n.entry.Resp
 	}
 	return frame.Error{Code: frame.ErrProtocol, Message: "unexpected request"}
 }
+
+var nodeSupported = frame.Supported{Options: []frame.KL{{Key: "COMPRESSION", Values: []string{"snappy", "lz4"}}, {Key: "CQL_VERSION", Values: []string{"3.0.0"}}}}
 
 type recTracer struct {
 	mu  sync.Mutex
@@ -214,35 +257,87 @@ func liveSelection(v int) []*frame.Entry {
 	return out
 }
 
+// liveCompressions: what the connections negotiate.
+var liveCompressions = []string{"", "snappy", "lz4"}
+
 func runLive(r *report.Run) {
 	start := time.Now()
-	var queries, entries, skipped int64
+	var queries, entries, skipped, bulkQ, seqCases, seqReq int64
+	var wg sync.WaitGroup
+	sem := make(chan struct{}, 16)
+	var tmu sync.Mutex
+	slowest := map[string]float64{}
+	run := func(part string, f func()) {
+		wg.Add(1)
+		go func() {
+			defer wg.Done()
+			sem <- struct{}{}
+			defer func() { <-sem }()
+			t := time.Now()
+			f()
+			tmu.Lock()
+			if d := time.Since(t).Seconds(); d > slowest[part] {
+				slowest[part] = d
+			}
+			tmu.Unlock()
+		}()
+	}
 	for v := 1; v <= 5; v++ {
+		v := v
 		sel := liveSelection(v)
-		for _, comp := range []bool{false, true} {
-			q, s := liveConn(r, v, comp, sel)
-			queries += q
-			skipped += s
-			entries += int64(len(sel))
+		bulk := bulkEntries(v, r.Thorough(), false)
+		for _, comp := range liveCompressions {
+			comp := comp
+			// the catalogue selection
+			run("catalogue selection", func() {
+				q, s := liveConn(r, v, comp, sel, 0)
+				atomic.AddInt64(&queries, q)
+				atomic.AddInt64(&skipped, s)
+				atomic.AddInt64(&entries, int64(len(sel)))
+			})
+			// large, highly compressible rows
+			run("bulk rows", func() {
+				q, s := liveConn(r, v, comp, bulk, 100000)
+				atomic.AddInt64(&bulkQ, q)
+				atomic.AddInt64(&skipped, s)
+				atomic.AddInt64(&entries, int64(len(bulk)))
+			})
+			// sequences of responses with different headers, consumed late
+			for _, mode := range seqModes {
+				mode := mode
+				run("sequences "+mode, func() {
+					c, q := liveSequences(r, v, comp, mode)
+					atomic.AddInt64(&seqCases, c)
+					atomic.AddInt64(&seqReq, q)
+				})
+			}
 		}
 	}
+	wg.Wait()
 	r.Extra("live_entries", entries)
-	r.Extra("live_queries_executed", queries)
+	r.Extra("live_queries_executed", queries+bulkQ)
+	r.Extra("live_bulk_rows_queries_executed", bulkQ)
 	r.Extra("live_executes_with_skip_metadata", skipped)
+	r.Extra("live_sequences", seqCases)
+	r.Extra("live_sequence_requests", seqReq)
+	r.Extra("live_slowest_connection_seconds", slowest)
 	r.Extra("live_phase_seconds", time.Since(start).Seconds())
 }
 
-func liveConn(r *report.Run, v int, comp bool, sel []*frame.Entry) (queries, skipped int64) {
+func liveConfig(v int, comp string) gocql.ClusterConfig {
+	cfg := *gocql.NewCluster("127.0.0.1")
+	cfg.ProtoVersion = v
+	cfg.Timeout, cfg.ConnectTimeout = 60*time.Second, 60*time.Second
+	cfg.Compressor = compressorOf(comp)
+	return cfg
+}
+
+func liveConn(r *report.Run, v int, comp string, sel []*frame.Entry, idxBase int) (queries, skipped int64) {
 	cl, sv := net.Pipe()
 	nd := &lnode{conn: sv, version: v}
 	go nd.serve()
-	cfg := *gocql.NewCluster("127.0.0.1")
-	cfg.ProtoVersion = v
-	cfg.Timeout, cfg.ConnectTimeout = 20*time.Second, 20*time.Second
-	if comp {
-		cfg.Compressor = gocql.SnappyCompressor{}
-	}
-	cfgName := fmt.Sprintf("v%d snappy=%v", v, comp)
+	cfg := liveConfig(v, comp)
+	cfgName := fmt.Sprintf("v%d compression=%q", v, comp)
 	live, err := gocql.VerifDial(cl, cfg)
 	if err != nil {
 		r.Violation("live:handshake-failed", cfgName+": "+err.Error(), cfgName)
@@ -252,9 +347,10 @@ func liveConn(r *report.Run, v int, comp bool, sel []*frame.Entry) (queries, ski
 	defer live.Close()
 
 	for idx, e := range sel {
+		idx += idxBase
 		for _, noSkip := range []bool{false, true} {
 			e, idx := e, idx
-			id := []byte{0xaa, byte(idx >> 8), byte(idx), byte(v)}
+			id := []byte{0xaa, byte(idx >> 16), byte(idx >> 8), byte(idx), byte(v)}
 			stmt := fmt.Sprintf("SELECT * FROM ks.t /* entry %d */", idx)
 			tr := &recTracer{}
 			mk := func() *gocql.Query {
@@ -342,8 +438,12 @@ func liveConn(r *report.Run, v int, comp bool, sel []*frame.Entry) (queries, ski
 					p.detail = "(" + p.key + ") " + p.detail
 					key = "live:rows:v1-prepared-select-uses-empty-prepared-metadata"
 				}
+				var replayResp interface{} = e.Resp
+				if strings.HasPrefix(e.Class, "rows/bulk/") {
+					replayResp = "bulkEntries(): " + e.Class
+				}
 				r.Violation(key, fmt.Sprintf("%s %s noskip=%v: %s", cfgName, e.Class, noSkip, p.detail),
-					map[string]interface{}{"connection": cfgName, "class": e.Class, "no_skip_metadata": noSkip, "response": e.Resp})
+					map[string]interface{}{"connection": cfgName, "class": e.Class, "no_skip_metadata": noSkip, "response": replayResp})
 			}
 		}
 	}
